@@ -72,6 +72,8 @@ type Scenario struct {
 	StallWriteSize int           `json:"stall_write_size"`
 	CloseAt        time.Duration `json:"close_at"` // Close is called this long after the stall began (or when the Writes have returned, if that is later)
 	TCPRate        int           `json:"tcp_rate"` // bytes per second of the closer->peer TCP direction (0 = unlimited)
+	Pace           time.Duration `json:"pace"` // udp: the closer->peer direction delivers at most one datagram per Pace (a bandwidth-limited path; nothing is dropped or reordered)
+	CloseWhenFull  bool          `json:"close_when_full"` // Writes > 0: stop writing and Close at once as soon as a successful Write leaves the send queue without a free slot
 	Seed           uint64        `json:"seed"`
 }
 
@@ -87,6 +89,8 @@ type Result struct {
 	Facts               Facts
 	VirtualMs           int64
 	ReadBeganAfterClose bool // receiver-backlog scenarios: the peer application's first Read came after the closer's Close had returned
+	EffN                int  // bytes the closer set out to write (sc.N, or what it had written when it stopped at a full queue)
+	QueueFullAtClose    bool // CloseWhenFull scenarios: a successful Write left the send queue without a free slot and Close was called at that point
 }
 
 // Facts is what the network trace says about the closer->peer direction.
@@ -191,6 +195,9 @@ func runScenario(sc Scenario) Result {
 			at := now.Add(sc.Latency)
 			if la, ok := lastArrive[dirKey]; ok && !at.After(la) {
 				at = la.Add(time.Nanosecond)
+			}
+			if la, ok := lastArrive[dirKey]; ok && sc.Pace > 0 && fromCloser && at.Before(la.Add(sc.Pace)) {
+				at = la.Add(sc.Pace)
 			}
 			base := at.Sub(now)
 			keep := func() []simnet.Delivery {
@@ -378,6 +385,10 @@ func runScenario(sc Scenario) Result {
 					}
 					break
 				}
+				if sc.CloseWhenFull && protocol.VerifC03SendQueueRemaining(c) == 0 {
+					res.QueueFullAtClose = true // the slot writeChunk keeps free for the close request is taken
+					break
+				}
 			}
 		} else {
 			w, err := c.Write(data)
@@ -385,6 +396,13 @@ func runScenario(sc Scenario) Result {
 		}
 		if sc.Delta > 0 {
 			time.Sleep(sc.Delta)
+		}
+		if sc.CloseWhenFull && !res.QueueFullAtClose {
+			// the queue never became full: let the backlog shrink to an eighth before closing, so that what is left drains
+			// well within the bounded wait of the graceful close
+			for k := 0; k < 120000 && protocol.VerifC03SendQueueRemaining(c) < protocol.VerifC03SegmentTreeCapacity*7/8; k++ {
+				time.Sleep(time.Millisecond)
+			}
 		}
 		tc := time.Now()
 		c.Close()
@@ -450,6 +468,10 @@ func runScenario(sc Scenario) Result {
 	case <-time.After(120 * time.Second):
 	}
 	res.Read, res.PrefixOK, res.ReadErr = po.n, po.prefixOK, po.rerr
+	if res.QueueFullAtClose {
+		sc.N = res.Wrote // the closer stopped at the first full queue: what it wrote successfully is the transfer
+	}
+	res.EffN = sc.N
 	ev := n.Log.Snapshot()
 	r.Close()
 	res.Facts = facts(sc, ev)
@@ -709,9 +731,10 @@ func main() {
 
 func runOne(r *vh.Run, sc Scenario) {
 	res := runScenario(sc)
+	sc.N = res.EffN
 	f := res.Facts
-	fmt.Fprintf(dbg, "%-40s %s closer=%s n=%d delta=%v -> %s wrote=%d/%s read=%d rerr=%q closeDur=%v virt=%dms nseg=%d closeSeq=%d sentBefore=%d sentEver=%d payloadSent=%d closeSent=%d closeDelivered=%v inorder=%d minPeerWin=%d have=%s\n",
-		sc.Name, sc.Transport, sc.Closer, sc.N, sc.Delta, res.Class, res.Wrote, res.WriteErr, res.Read, res.ReadErr, res.CloseDur, res.VirtualMs,
+	fmt.Fprintf(dbg, "%-40s %s closer=%s n=%d delta=%v -> %s wrote=%d/%s read=%d rerr=%q closeDur=%v qfull=%v virt=%dms nseg=%d closeSeq=%d sentBefore=%d sentEver=%d payloadSent=%d closeSent=%d closeDelivered=%v inorder=%d minPeerWin=%d have=%s\n",
+		sc.Name, sc.Transport, sc.Closer, sc.N, sc.Delta, res.Class, res.Wrote, res.WriteErr, res.Read, res.ReadErr, res.CloseDur, res.QueueFullAtClose, res.VirtualMs,
 		f.NSeg, f.CloseSeq, f.SentBeforeClose, f.SentEver, f.PayloadSent, f.CloseSent, f.CloseDelivered, f.InOrder, f.MinPeerWindow, ranges(f.Have))
 	r.Count("transport=" + sc.Transport)
 	r.Count("closer=" + sc.Closer)
